@@ -22,6 +22,7 @@ EXPLANATION = (
     "message queue. Not decided: arrival-time races between the provider thread inserting and the "
     "association thread clearing (a cancel that overtakes the start of its own operation)."
     " Fifth round: (cancel-id-range) the C-CANCEL message id keeps C17's numeric range."
+    " Sixth round: (never-queued) receive_primitive evaluated on a C-CANCEL for 0..30 pending cancels, new and repeated IDs: never queued, pending cancels never dropped, table bounded; (reported) _wrap_handler resumes the generator before it tests the peer's state."
 )
 
 WRITERS_ALLOWED = {
